@@ -335,6 +335,14 @@ func check(id, tier string) int {
 	harnessBroken := false
 	for i, r := range results {
 		if r == nil {
+			// a shard that died or was stopped at the time cap wrote no result: the verdicts it had logged
+			// until then are still verdicts (a tree on which every case is slow must not end as "nothing observed")
+			sv, ended := salvageLog(runDir, i)
+			viols = append(viols, sv...)
+			evals += int64(ended)
+			if len(sv) > 0 || ended > 0 {
+				counters["cases_salvaged_from_unfinished_shards"] += int64(ended)
+			}
 			v, harness := triageCrash(id, runDir, i, crashes[i])
 			if harness {
 				harnessBroken = true
@@ -494,6 +502,37 @@ func check(id, tier string) int {
 		os.RemoveAll(runDir)
 	}
 	return 0
+}
+
+// salvageLog reads the VIOL lines a shard logged before it died or was stopped, and counts the cases it
+// had finished.
+func salvageLog(runDir string, shard int) ([]core.Violation, int) {
+	b, err := os.ReadFile(filepath.Join(runDir, fmt.Sprintf("shard%d.log", shard)))
+	if err != nil {
+		return nil, 0
+	}
+	var out []core.Violation
+	seen := map[string]int{}
+	ended := 0
+	for _, l := range strings.Split(string(b), "\n") {
+		if strings.HasPrefix(l, "END ") {
+			ended++
+			continue
+		}
+		if !strings.HasPrefix(l, "VIOL ") {
+			continue
+		}
+		f := strings.SplitN(l, " ", 4)
+		if len(f) < 4 || !strings.HasPrefix(f[2], "key=") {
+			continue
+		}
+		key := strings.TrimPrefix(f[2], "key=")
+		if seen[key]++; seen[key] > 3 {
+			continue
+		}
+		out = append(out, core.Violation{Key: key, Case: f[1], What: f[3] + " (from the log of a shard that did not finish)"})
+	}
+	return out, ended
 }
 
 func sanitize(s string) string {
